@@ -113,6 +113,30 @@ def templates(tier="quick"):
                 header="restat = 1")
     T += _mk("restat_bound_at_file_level", [v], tags=["restat", "pool"], depth=d, js=(1, 2), touch=True, max_fault_stmts=1, edits_during=False)
 
+    # T13f / T21c a build statement that overrides the rule's `rspfile` / `depfile` binding with a path of its own (lookup
+    # order build, rule, file): ninja writes the response file and makes the depfile's directory where the *statement* says
+    lib = Stmt("out/lib", ex=["a.o"], rsp=("out/lib.rsp", "a.o"))
+    lib.rsp_decoy = "elsewhere/rule.rsp"
+    obj = Stmt("a.o", ex=["a.c"], hidden=["h"], depfile=True)
+    obj.depfile_dir = "deps/a"
+    obj.depfile_decoy = "rule_deps/$out.d"
+    v = Variant("v0", [obj, lib, Stmt("exe", ex=["out/lib"])])
+    T += _mk("statement_overrides_rule_paths", [v], tags=["rspfile", "mkdirs", "depfile"], depth=min(d, 2), js=(1, 2), max_fault_stmts=2, edits_during=False)
+
+    # T9b a statement with recorded dependencies and two outputs (the second is written after the first), and a depfile that
+    # names an implicit output next to the explicit one
+    two = Stmt(["o1", "o2"], ex=["s"], hidden=["h"], deps="gcc")
+    imp = Stmt("g.c", iouts=["g.h"], ex=["g.y"], hidden=["defs.h"], depfile=True)
+    imp.dep_all_outs = True
+    v = Variant("v0", [two, imp, Stmt("top", ex=["o1", "o2", "g.c"], im=["g.h"])])
+    T += _mk("several_outputs_with_discovered_deps", [v], tags=["deps-gcc", "depfile", "multi-output"], depth=d, js=(1, 2), max_fault_stmts=2, touch=True)
+
+    # T6c a localized compiler: the /showIncludes prefix is bound at file level (msvc_deps_prefix), as build generators write it
+    o = Stmt("obj", ex=["src"], hidden=["inc.h", "gen.h"], oo=["gen.h"], deps="msvc")
+    o.msvc_prefix = "Hinweis: Einlesen der Datei: "
+    v = Variant("v0", [Stmt("gen.h", ex=["h.in"]), o, Stmt("exe", ex=["obj"])], header="msvc_deps_prefix = Hinweis: Einlesen der Datei: ")
+    T += _mk("deps_msvc_localized_prefix", [v], tags=["deps-msvc"], depth=d, js=(1, 2), max_fault_stmts=1)
+
     # T11b a phony statement bound to the pool (a build-level `pool =` on an alias) that becomes ready in the middle of the
     # build, with more members of the pool behind it than the pool is deep
     v = Variant("v0", [Stmt("a", ex=["s"]), Stmt("al", ex=["a"], phony=True, pool="one"), Stmt("p1", ex=["al"], pool="one"),
